@@ -103,9 +103,9 @@ fn main() {
     let seed: u64 = std::env::var("VERIF_SEED").ok().and_then(|s| s.trim().parse::<i64>().ok()).map(|v| v as u64).unwrap_or(1);
     let verif_dir = std::env::var("VERIF_DIR").unwrap_or_else(|_| "/verif".to_string());
 
-    // Supervision (C03, C11): the check proper runs in a child process; if the child dies on a signal, aborts or stalls,
+    // Supervision (every check since round 12; C03 and C11 before): the check proper runs in a child process; if the child dies on a signal, aborts or stalls,
     // this process runs the triage of the journalled cases and reports the culprit (engine::triage_stage).
-    let supervised = matches!(prop, "C03" | "C11") && replay.is_none() && !triage && replay_tape.is_none() && std::env::var("VERIF_WORKER").is_err();
+    let supervised = replay.is_none() && !triage && replay_tape.is_none() && std::env::var("VERIF_WORKER").is_err();
     if supervised {
         // stale journals from an earlier run would confuse the triage
         if let Ok(rd) = std::fs::read_dir(format!("{}/replays", verif_dir)) {
